@@ -785,6 +785,13 @@ class C10(Family):
                 # a spoiled problem that is still accepted (e.g. asymmetry below eps) need not have
                 # a solution: the SciPy solver itself raised after having been called correctly
                 return Verdict(AGREE)
+            if designed and impl["calls"] == [model["call"]] and impl.get("solver_ret") is None \
+                    and case["fn"] in ("care", "dare") and self.clustered_closed_loop(case):
+                # python-control called the SciPy solver with the right arguments and SciPy itself gave
+                # up; the designed closed loop has (nearly) repeated eigenvalues, so the stable
+                # invariant subspace of the Hamiltonian / symplectic pencil is ill conditioned and
+                # ordered-QZ may fail: outside "rounding scaled by the problem's conditioning"
+                return Verdict(AGREE)
             return Verdict(VIOLATES, "implementation raises %s on a well-posed problem" % impl["exc"],
                            self.feat(case, "raises", impl))
         # both return
@@ -810,6 +817,31 @@ class C10(Family):
         if mres == "needX" :
             return Verdict(DIFFERS, "solver output was not recorded in the expected shape", self.feat(case, "needX"))
         return Verdict(AGREE)
+
+    @staticmethod
+    def clustered_closed_loop(case):
+        """are two closed-loop eigenvalues of the designed solution closer than 1e-3 (relative)?"""
+        try:
+            g = case["args"]
+            A = np.array([[float(F(x)) for x in r] for r in two_d(g["A"])])
+            B = np.array([[float(F(x)) for x in r] for r in two_d(g["B"])])
+            X = np.array([[float(F(x)) for x in r] for r in case["Xexact"]])
+            n, m = A.shape[0], B.shape[1]
+            R = np.eye(m) if g.get("R") is None else np.array([[float(F(x)) for x in r] for r in two_d(g["R"])])
+            S = np.zeros((n, m)) if g.get("S") is None else np.array([[float(F(x)) for x in r] for r in two_d(g["S"])])
+            E = np.eye(n) if g.get("E") is None else np.array([[float(F(x)) for x in r] for r in two_d(g["E"])])
+            if case["fn"] == "care":
+                G = np.linalg.solve(R, B.T @ X @ E + S.T)
+            else:
+                G = np.linalg.solve(B.T @ X @ B + R, B.T @ X @ A + S.T)
+            lam = np.linalg.eigvals(np.linalg.solve(E, A - B @ G))
+            for i in range(len(lam)):
+                for j in range(i + 1, len(lam)):
+                    if abs(lam[i] - lam[j]) <= 1e-3 * max(1.0, abs(lam[i]), abs(lam[j])):
+                        return True
+            return False
+        except Exception:
+            return False
 
     @staticmethod
     def call_diff(calls, mcall):
